@@ -110,6 +110,21 @@ CHECKS = {
             "compatibility of generated pairs is decided by an independent Python transcription "
             "of the property text",
             "section 6 C10"),
+    "C11": ("proof",
+            "in the model a pickle clone is the same value pushed as a new pool entry with fresh "
+            "identities; Coq theorems: every existing entry (content and identities) is untouched by "
+            "the clone step (frame theorem of the identity layer, every arithmetic instance), the "
+            "clone compares equal to the original (exact instance), and original and clone agree "
+            "under every identical continuation of fills and batches; " + TIE + ": trees whose "
+            "quantities are lambdas / defs / string expressions, plain, named and cached in every "
+            "wrapper order, in live, summed, scaled, copied and JSON-reloaded states, are pickled; "
+            "original and clone are compared with ==, toJson, and after identical row fills, a "
+            "vectorised batch, +, and a second clone; identities of the clone are checked to be "
+            "disjoint from every existing aggregator",
+            "partial: pickle / marshal of the objects and of function code are not modelled - that "
+            "the implementation's clone behaves like the model's is decided by differential "
+            "checking, not by a theorem; closures over mutable state are outside the claim",
+            "section 6 C11"),
     "C12": ("proof",
             "Coq theorems for every arithmetic instance: a raising fill returns a single-path tree "
             "unchanged (any depth, both failure modes), a stream with skipped failures equals the "
